@@ -149,6 +149,14 @@ def gen_scenario(batch_seed, i, tier):
     gran = 'instr' if (trace and rng.random() < 0.15) else 'line'
     kind = rng.weighted([('geometric', 60), ('fixed', 10), ('starve', 15), ('sequential', 15)])
     mean = rng.choice((3, 10, 40, 150, 600, 2500, 10000, 40000))
+    twin = trace and nthreads >= 2 and rng.random() < 0.3
+    if twin:
+        # twins: every client runs the same kind of operation on the same symbol spec with different options, under
+        # near-lockstep scheduling -- two clients inside the same function at the same time is where shared scratch
+        # state (a module-level buffer, a dict in a closure, "current options" globals) shows
+        threads, makes = _twin_threads(rng, nthreads, small)
+        kind = rng.choice(('roundrobin', 'roundrobin', 'fixed', 'geometric'))
+        mean = rng.choice((1, 1, 2, 3, 5, 8))
     if gran == 'instr':
         mean *= 5
     policy = {'kind': kind, 'mean': mean, 'seed': rng.getrandbits(48), 'victim': rng.randrange(nthreads)}
@@ -171,7 +179,46 @@ def gen_scenario(batch_seed, i, tier):
              'mode': rng.choice(('frozen', 'jumping')), 'deltas': [rng.choice((1, 60, 86400, -3600)) for _ in range(3)]}
     return {'prop': PROP, 'seed': seed, 'index': i, 'tier': tier, 'threads': threads, 'trace': trace, 'granularity': gran,
             'policy': policy, 'schedule': None, 'faults': faults, 'sink_faults': sink_faults, 'clock': clock,
-            'bufsize': rng.choice((16, 512, 8192)), 'hashseed_probe': rng.random() < 0.04, 'hashseed': rng.randint(1, 10 ** 6)}
+            'bufsize': rng.choice((16, 512, 8192)), 'hashseed_probe': rng.random() < 0.5, 'hashseed': rng.randint(1, 10 ** 6), 'twin': twin}
+
+
+def _twin_threads(rng, nthreads, small):
+    base = ops.gen_make(rng, 's0', small=True, allow_bad=False)
+    while base['fn'] == 'make_sequence' or base['fn'].startswith('helpers.'):
+        base = ops.gen_make(rng, 's0', small=True, allow_bad=False)
+    what = rng.weighted([('save', 70), ('make', 15), ('miter', 8), ('uri', 7)])
+    kinds = [rng.choice(opts.KINDS) for _ in range(rng.randint(1, 3))]
+    threads = [[] for _ in range(nthreads)]
+    symspec = {'fn': base['fn'], 'content': base['content'], 'kw': base['kw']}
+    for j, kind in enumerate(kinds):
+        for t in range(nthreads):
+            name = 't%do%d' % (t, j)
+            if what == 'make':
+                spec = dict(base, id='s%d_%d' % (t, j))
+                if t > 0:
+                    c = core.dec(base['content'])
+                    if isinstance(c, str) and c:
+                        c = ''.join(reversed(c)) if t == 1 else c[1:] + c[:1]      # same length and mode, other data
+                    spec['content'] = core.enc(c)
+            elif what == 'miter':
+                spec = {'op': 'miter', 'sym': None, 'symspec': symspec, 'name': name, 'scale': rng.choice((1, 2, 3)), 'border': rng.choice((None, 0, 3)),
+                        'verbose': j % 2 == 0, 'consume': 'all', 'rows': 3}
+            elif what == 'uri':
+                which = ('png_data_uri', 'svg_data_uri', 'svg_inline')[j % 3]
+                skw = opts.gen_ser_opts(rng, 'png' if which == 'png_data_uri' else 'svg', cli=False)
+                for k in ('xmldecl', 'svgns', 'nl'):
+                    skw.pop(k, None)
+                spec = {'op': 'uri', 'sym': None, 'symspec': symspec, 'name': name, 'which': which, 'skw': core.enc(skw)}
+            else:
+                skw = opts.gen_ser_opts(rng, kind, cli=False)
+                if kind in opts.COLORFUL_KINDS or kind in ('eps', 'pdf', 'pam', 'xpm'):
+                    skw['dark'] = rng.choice(opts.RGB_COLORS)
+                    if kind in opts.COLORFUL_KINDS and rng.random() < 0.7:
+                        skw[rng.choice(opts.MODULE_COLOR_KEYS)] = rng.choice(opts.RGB_COLORS)
+                spec = {'op': 'save', 'sym': None, 'symspec': symspec, 'name': name, 'kind': kind, 'skw': core.enc(skw),
+                        'route': rng.choice(('stream', 'stream', 'path'))}
+            threads[t].append(spec)
+    return threads, [base]
 
 
 def _viol(clause, msg, **detail):
